@@ -56,6 +56,21 @@ DOMAINS = {
 }
 
 
+def _segH_domain(row):
+    """magnet_cylinder_segment_Hfield(observers=(r,phi,z), dimensions=(r1,r2,phi1,phi2,z1,z2)): the case formulas are singular
+    exactly on the 8 corners of the segment (r in {r1,r2}, z in {z1,z2}, phi = phi1 or phi2 modulo 2 pi); the wrapper must mask them"""
+    r, phi, zz = [toz(x) for x in row["observers"]]
+    r1, r2, p1, p2, z1, z2 = [toz(x) for x in row["dimensions"]]
+    two_pi = toz(float(2 * np.pi))
+    on_r = z3.Or(r == r1, r == r2)
+    on_z = z3.Or(zz == z1, zz == z2)
+    on_phi = z3.Or(*[phi == pj + k * two_pi for pj in (p1, p2) for k in (-1, 0, 1)])
+    return z3.Not(z3.And(on_r, on_z, on_phi))
+
+
+ROW_DOMAINS = {"segH": _segH_domain}
+
+
 def apply_cuts(names):
     for nm in names:
         if nm == "insideTM":
@@ -71,7 +86,7 @@ def apply_cuts(names):
         if kind == "elementwise":
             stub = elementwise_cut(nm, orig, dom=DOMAINS.get(nm))
         else:
-            stub = row_kernel_cut(nm, orig, argnames)
+            stub = row_kernel_cut(nm, orig, argnames, dom=ROW_DOMAINS.get(nm))
         install.patch(modname, attr, stub)
 
 
